@@ -479,3 +479,397 @@ Proof.
     + destruct (host_text h); discriminate.
     + rewrite not_in_app. split; [apply F|]. intros [E|Hi]; [discriminate|contradiction].
 Qed.
+
+(* ------------------------------------------------------------------ whatever is accepted is routed where it says *)
+Lemma rsplit_three a c rest : ~ In COLON rest ->
+  rsplit_byte COLON (a ++ COLON :: c ++ COLON :: rest) = Some (a ++ COLON :: c, rest).
+Proof.
+  intros H. replace (a ++ COLON :: c ++ COLON :: rest) with ((a ++ COLON :: c) ++ COLON :: rest)
+    by (rewrite <- app_assoc; reflexivity).
+  now apply rsplit_byte_last.
+Qed.
+
+Lemma rsplit_four a c pre t : ~ In COLON t ->
+  rsplit_byte COLON (a ++ COLON :: c ++ COLON :: pre ++ COLON :: t) = Some (a ++ COLON :: c ++ COLON :: pre, t).
+Proof.
+  intros H. replace (a ++ COLON :: c ++ COLON :: pre ++ COLON :: t) with ((a ++ COLON :: c ++ COLON :: pre) ++ COLON :: t)
+    by (rewrite <- !app_assoc; cbn [app]; rewrite <- !app_assoc; reflexivity).
+  now apply rsplit_byte_last.
+Qed.
+
+Lemma patch_ipv6_bracket_inv t h' : patch_ipv6 (LBRACKET :: t) = Ok h' -> h' = LBRACKET :: t.
+Proof.
+  unfold patch_ipv6. destruct (text_ (LBRACKET :: t)) as [s|e] eqn:Et; cbn [bind]; [|discriminate].
+  assert (s = LBRACKET :: t) as -> by (unfold text_ in Et; destruct (utf8_valid (LBRACKET :: t)); now inversion Et).
+  destruct (mem_byte COLON (LBRACKET :: t)); [|now intros H; inversion H].
+  rewrite N.eqb_refl. cbn [negb andb]. now intros H; inversion H.
+Qed.
+
+Lemma starts_with_bracket_cons l : starts_with_bracket l = true -> exists t, l = LBRACKET :: t.
+Proof. destruct l as [|x t]; [discriminate|]. cbn [starts_with_bracket]. intros H. apply N.eqb_eq in H. subst. now exists t. Qed.
+
+Lemma starts_with_bracket_app a r : ~ In COLON a -> starts_with_bracket (a ++ COLON :: r) = true ->
+  exists a', a = LBRACKET :: a'.
+Proof.
+  destruct a as [|x a']; cbn [app starts_with_bracket]; intros _ H.
+  - discriminate.
+  - apply N.eqb_eq in H. subst. now exists a'.
+Qed.
+
+Lemma count3 a c rest : ~ In COLON a -> ~ In COLON c ->
+  count_byte COLON (a ++ COLON :: c ++ COLON :: rest) = S (S (count_byte COLON rest)).
+Proof.
+  intros Ha Hc. apply count_byte_zero in Ha, Hc.
+  rewrite count_byte_app, count_byte_cons_eq, count_byte_app, count_byte_cons_eq, Ha, Hc. reflexivity.
+Qed.
+
+Lemma parse_hostport_ref u p hp u' p' h pt :
+  parse_hostport u p hp = Ok (u', p', h, pt) -> lenient_ipv6_shape hp = false ->
+  (h, pt) = ref_hostport hp.
+Proof.
+  intros Hp Hg. unfold ref_hostport.
+  destruct (hostport_shape hp) as [H0|[(h0 & q & -> & Hh & Hq)|[(a & c & rest & -> & Ha & Hc & Hr)|(a & c & pre & t & -> & Ha & Hc & Ht)]]].
+  - rewrite (parse_hostport_0 _ _ _ H0) in Hp. inversion Hp; subst. now rewrite (rsplit_byte_none _ _ H0).
+  - rewrite (parse_hostport_1 _ _ _ _ Hh Hq) in Hp. rewrite (rsplit_byte_last _ _ _ Hq).
+    destruct (int10 q) as [n|e]; cbn [bind] in Hp; [|discriminate]. now inversion Hp.
+  - unfold lenient_ipv6_shape, last_token, is_int_text in Hg.
+    rewrite (count3 _ _ _ Ha Hc) in Hg. apply count_byte_zero in Hr as Hr0. rewrite Hr0 in Hg.
+    rewrite (rsplit_three _ _ _ Hr) in Hg |- *. cbn [Nat.leb Nat.eqb andb] in Hg.
+    apply orb_false_iff in Hg as [Hb Hi]. apply negb_false_iff in Hb.
+    rewrite (parse_hostport_2 _ _ _ _ _ Ha Hc Hr) in Hp.
+    destruct (int10 rest) as [n|e]; [discriminate|].
+    destruct (starts_with_bracket_cons _ Hb) as [tl Etl]. rewrite Etl in Hp |- *.
+    destruct (patch_ipv6 (LBRACKET :: tl)) as [h'|] eqn:Ep; cbn [bind] in Hp; [|discriminate].
+    apply patch_ipv6_bracket_inv in Ep. inversion Hp; subst. reflexivity.
+  - unfold lenient_ipv6_shape in Hg.
+    rewrite (count3 _ _ _ Ha Hc) in Hg. rewrite count_byte_app, count_byte_cons_eq in Hg.
+    replace (2 <=? S (S (count_byte COLON pre + S (count_byte COLON t))))%nat with true in Hg by reflexivity.
+    replace (Nat.eqb (S (S (count_byte COLON pre + S (count_byte COLON t)))) 2) with false in Hg
+      by (symmetry; apply Nat.eqb_neq; lia).
+    cbn [andb] in Hg. rewrite orb_false_r in Hg. apply negb_false_iff in Hg.
+    rewrite (rsplit_four _ _ _ _ Ht).
+    rewrite (parse_hostport_3 _ _ _ _ _ _ Ha Hc Ht) in Hp.
+    destruct (starts_with_bracket_app _ _ Ha Hg) as [a' ->].
+    destruct (int10 t) as [n|e].
+    + cbn [app] in Hp.
+      destruct (patch_ipv6 (LBRACKET :: a' ++ COLON :: c ++ COLON :: pre)) as [h'|] eqn:Ep; cbn [bind] in Hp; [|discriminate].
+      apply patch_ipv6_bracket_inv in Ep. inversion Hp; subst. reflexivity.
+    + cbn [app] in Hp.
+      destruct (patch_ipv6 (LBRACKET :: a' ++ COLON :: c ++ COLON :: pre ++ COLON :: t)) as [h'|] eqn:Ep; cbn [bind] in Hp; [|discriminate].
+      apply patch_ipv6_bracket_inv in Ep. inversion Hp; subst. reflexivity.
+Qed.
+
+Lemma parse_authority_ref auth u pw h pt :
+  parse_authority auth = Ok (u, pw, h, pt) -> lenient_ipv6_shape (after_at auth) = false ->
+  (h, pt) = ref_hostport (after_at auth).
+Proof.
+  rewrite parse_authority_eq. rewrite <- userinfo_split_after_at.
+  destruct (userinfo_split auth) as [[u0 p0] hp]. cbn [snd]. apply parse_hostport_ref.
+Qed.
+
+(* every accepted target that names a host got it from Url._parse applied to ref_authority *)
+Lemma derive_authority c raw h p pa :
+  derive c raw = Ok (Some h, Some p, pa) ->
+  exists auth u pw pt, ref_authority raw = Some auth /\ parse_authority auth = Ok (u, pw, h, pt) /\
+                       p = match pt with Some n => n | None => default_port c end.
+Proof.
+  unfold derive. intros H.
+  destruct (from_bytes DEFAULT_ALLOWED_URL_SCHEMES raw) as [url|] eqn:Efb; cbn [bind] in H; [|discriminate].
+  unfold line_attributes in H.
+  assert (Hh : u_hostname url = Some h) by (inversion H; reflexivity).
+  assert (Hpt : p = match u_port url with Some n => n | None => default_port c end)
+    by (unfold default_port; destruct (u_port url); inversion H; reflexivity).
+  clear H.
+  destruct raw as [|c0 t]; [discriminate|].
+  destruct (N.eqb_spec c0 SLASH) as [->|Hc0].
+  - destruct t as [|c1 t'].
+    + unfold from_bytes in Efb. rewrite N.eqb_refl in Efb. cbn [andb negb] in Efb.
+      inversion Efb; subst url. discriminate.
+    + destruct (N.eqb_spec c1 SLASH) as [->|Hc1].
+      * rewrite from_bytes_double in Efb.
+        unfold ref_authority. cbn [starts_with_slash tl skipn]. rewrite N.eqb_refl. cbn [andb negb].
+        destruct (split_once [SLASH] t') as [[a q]|];
+          (destruct (parse_authority _) as [[[[u pw] h'] pt]|] eqn:Epa; cbn [bind] in Efb; [|discriminate];
+           inversion Efb; subst url; cbn [u_hostname u_port] in *; inversion Hh; subst h';
+           eexists _, u, pw, pt; split; [reflexivity|]; split; [exact Epa|exact Hpt]).
+      * unfold from_bytes in Efb. rewrite N.eqb_refl in Efb.
+        replace (c1 =? SLASH) with false in Efb by (symmetry; now apply N.eqb_neq).
+        cbn [andb negb] in Efb. inversion Efb; subst url. discriminate.
+  - rewrite from_bytes_noslash in Efb by (now apply N.eqb_neq).
+    unfold ref_authority. cbn [starts_with_slash].
+    replace (c0 =? SLASH) with false by (symmetry; now apply N.eqb_neq). cbn [andb].
+    destruct (split_once (bytes_of_string "://") (c0 :: t)) as [[s r]|].
+    + destruct (mem_bytes s DEFAULT_ALLOWED_URL_SCHEMES); cbn [bind] in Efb; [|discriminate].
+      destruct (split_once [SLASH] r) as [[a q]|];
+        (destruct (parse_authority _) as [[[[u pw] h'] pt]|] eqn:Epa; cbn [bind] in Efb; [|discriminate];
+         inversion Efb; subst url; cbn [u_hostname u_port] in *; inversion Hh; subst h';
+         eexists _, u, pw, pt; split; [reflexivity|]; split; [exact Epa|exact Hpt]).
+    + cbn [bind] in Efb.
+      destruct (parse_authority (c0 :: t)) as [[[[u pw] h'] pt]|] eqn:Epa; cbn [bind] in Efb; [|discriminate].
+      inversion Efb; subst url; cbn [u_hostname u_port] in *; inversion Hh; subst h'.
+      eexists _, u, pw, pt; split; [reflexivity|]; split; [exact Epa|exact Hpt].
+Qed.
+
+Lemma no_misroute c raw h p pa hp :
+  derive c raw = Ok (Some h, Some p, pa) ->
+  ref_hostport_text raw = Some hp -> lenient_ipv6_shape hp = false ->
+  h = fst (ref_hostport hp) /\
+  p = match snd (ref_hostport hp) with Some n => n | None => default_port c end.
+Proof.
+  intros Hd Hr Hg. destruct (derive_authority _ _ _ _ _ Hd) as (auth & u & pw & pt & Ha & Hp & ->).
+  unfold ref_hostport_text in Hr. rewrite Ha in Hr. cbn [option_map] in Hr. inversion Hr; subst hp.
+  rewrite <- (parse_authority_ref _ _ _ _ _ Hp Hg). split; reflexivity.
+Qed.
+
+(* ------------------------------------------------------------------ down to the socket call *)
+Section ConnectFacts.
+  Variable ipv : bytes -> option N.
+
+  Definition dispatch (h : bytes) (p : Z) : sockcall :=
+    match ipv h with
+    | Some v => if v =? 4 then SockConnect AF_INET h p else SockConnect AF_INET6 h p
+    | None => CreateConnection h p
+    end.
+
+  Lemma dispatch_addr h p : call_addr (dispatch h p) = (h, p).
+  Proof. unfold dispatch. destruct (ipv h) as [v|]; [destruct (v =? 4)|]; reflexivity. Qed.
+
+  Lemma new_socket_connection_dispatch h p : new_socket_connection ipv (h, p) = dispatch (strip_brackets h) p.
+  Proof. reflexivity. Qed.
+
+  Definition port_in_range (p : Z) : Prop := (0 < p <= 65535)%Z.
+
+  Lemma connect_upstream_ok h p : h <> [] -> port_in_range p -> text_ h = Ok h ->
+    connect_upstream ipv (Some h) (Some p) = Ok (dispatch (strip_brackets h) p).
+  Proof.
+    intros Hh Hp Ht. unfold port_in_range in Hp. unfold connect_upstream.
+    replace (Nat.eqb (length h) 0) with false by (destruct h; [congruence|reflexivity]).
+    replace (p =? 0)%Z with false by (symmetry; apply Z.eqb_neq; lia).
+    replace (0 <? p)%Z with true by (symmetry; apply Z.ltb_lt; lia).
+    replace (p <=? 65535)%Z with true by (symmetry; apply Z.leb_le; lia).
+    cbn [negb andb]. rewrite Ht. reflexivity.
+  Qed.
+
+  Lemma connect_upstream_out_of_range h p : ~ port_in_range p ->
+    exists k, connect_upstream ipv (Some h) (Some p) = Err (HttpProtocolException k).
+  Proof.
+    intros Hp. unfold port_in_range in Hp. unfold connect_upstream.
+    destruct (negb (Nat.eqb (length h) 0) && negb (p =? 0)%Z); [|now exists 3].
+    destruct (Z.ltb_spec 0 p); destruct (Z.leb_spec p 65535); cbn [andb]; try (now exists 4). lia.
+  Qed.
+
+  Lemma connect_upstream_inv h p call : connect_upstream ipv h p = Ok call ->
+    exists h' p', h = Some h' /\ p = Some p' /\ h' <> [] /\ port_in_range p' /\ call = dispatch (strip_brackets h') p'.
+  Proof.
+    unfold connect_upstream. destruct h as [h'|]; [|discriminate]. destruct p as [p'|]; [|discriminate].
+    destruct (Nat.eqb (length h') 0) eqn:El; cbn [negb andb]; [discriminate|].
+    destruct (Z.eqb_spec p' 0) as [E|Ne]; cbn [negb]; [discriminate|].
+    destruct (Z.ltb_spec 0 p'); destruct (Z.leb_spec p' 65535); cbn [andb]; try discriminate.
+    unfold text_. destruct (utf8_valid h'); cbn [bind]; [|discriminate].
+    intros H'; inversion H'. exists h', p'. repeat split; try assumption.
+    intros ->. discriminate.
+  Qed.
+
+  (* valid targets: the call made is the literal/name dispatch on (host without brackets, port) *)
+  Lemma route_wf c t h p : wf_target t = true -> expected_addr c t = Some (h, p) ->
+    (port_in_range p -> route ipv c (render_target t) = Ok (dispatch h p)) /\
+    (~ port_in_range p -> exists k, route ipv c (render_target t) = Err (HttpProtocolException k)).
+  Proof.
+    intros Hwf He. unfold route. rewrite (derive_roundtrip c t Hwf).
+    assert (Hgen : forall hh pp, wf_host hh = true -> host_unbracketed hh = h -> pp = p ->
+       (port_in_range p -> connect_upstream ipv (Some (host_text hh)) (Some pp) = Ok (dispatch h p)) /\
+       (~ port_in_range p -> exists k, connect_upstream ipv (Some (host_text hh)) (Some pp) = Err (HttpProtocolException k))).
+    { intros hh pp Hh <- ->. pose proof (wf_host_facts hh Hh) as F. split.
+      - intros Hp. rewrite <- (hf_unbr _ F). apply connect_upstream_ok; [apply F|exact Hp|apply F].
+      - apply connect_upstream_out_of_range. }
+    destruct t as [pa|ui hh pt pa|hh q]; cbn [expected_addr expected] in *; [discriminate| |].
+    - inversion He; subst. cbn [bind]. cbn [wf_target] in Hwf.
+      apply andb_true_iff in Hwf as [Hwf _]. apply andb_true_iff in Hwf as [Hwf _]. apply andb_true_iff in Hwf as [_ Hh].
+      now apply Hgen.
+    - inversion He; subst. cbn [bind]. cbn [wf_target] in Hwf. apply andb_true_iff in Hwf as [Hh _].
+      now apply Hgen.
+  Qed.
+
+  Lemma route_origin c t : wf_target t = true -> expected_addr c t = None ->
+    route ipv c (render_target t) = Err (HttpProtocolException 3).
+  Proof.
+    intros Hwf He. unfold route. rewrite (derive_roundtrip c t Hwf).
+    destruct t; cbn [expected_addr] in He; try discriminate. reflexivity.
+  Qed.
+
+  (* every input: a socket call is made only for a non-empty host and a non-zero port, and to exactly
+     the derived host (brackets stripped) and port *)
+  Lemma route_sound c raw call : route ipv c raw = Ok call ->
+    exists h p pa, derive c raw = Ok (Some h, Some p, pa) /\ h <> [] /\ port_in_range p /\
+                   call = dispatch (strip_brackets h) p /\ call_addr call = (strip_brackets h, p).
+  Proof.
+    unfold route. destruct (derive c raw) as [[[h p] pa]|]; cbn [bind]; [|discriminate].
+    intros H. apply connect_upstream_inv in H as (h' & p' & -> & -> & Hh & Hp & ->).
+    exists h', p', pa. split; [reflexivity|]. split; [exact Hh|]. split; [exact Hp|]. split; [reflexivity|apply dispatch_addr].
+  Qed.
+End ConnectFacts.
+
+(* ------------------------------------------------------------------ the link to HttpParser's request line *)
+From PM Require Import Http.Chunk Http.Parser.
+
+Lemma request_line_parts m target ver : ~ In SP m -> ~ In SP target ->
+  splitn [SP] 2 (m ++ SP :: target ++ SP :: ver) = [m; target; ver].
+Proof.
+  intros Hm Ht.
+  rewrite (splitn_S_some _ _ _ _ _ (split_once_byte_notin _ _ _ Hm)).
+  rewrite (splitn_S_some _ _ _ _ _ (split_once_byte_notin _ _ _ Ht)). reflexivity.
+Qed.
+
+(* HttpParser._process_line on "<method> SP <target> SP <version> CRLF": host/port/path are [derive] of the target *)
+Lemma process_line_derive p m target ver rest :
+  is_request (ty p) = true -> is_https_tunnel p = false ->
+  ~ In SP m -> ~ In SP target -> ~ In CR (m ++ SP :: target ++ SP :: ver) ->
+  match derive (bytes_eqb m CONNECT) target with
+  | Ok (h, pt, pa) =>
+      exists more p', process_line DEFAULT_ALLOWED_URL_SCHEMES p ((m ++ SP :: target ++ SP :: ver) ++ CRLF ++ rest)
+                      = Ok (more, rest, p') /\ host p' = h /\ port p' = pt /\ path p' = pa
+  | Err e => process_line DEFAULT_ALLOWED_URL_SCHEMES p ((m ++ SP :: target ++ SP :: ver) ++ CRLF ++ rest) = Err e
+  end.
+Proof.
+  intros Hreq Htun Hm Ht Hcr. unfold process_line.
+  change CRLF with (CR :: [LF]). rewrite (split_once_first_notin _ _ _ _ Hcr).
+  rewrite (request_line_parts _ _ _ Hm Ht). rewrite Hreq, Htun, orb_false_r.
+  unfold derive. destruct (from_bytes DEFAULT_ALLOWED_URL_SCHEMES target) as [u|e]; cbn [bind]; [|reflexivity].
+  destruct (line_attributes (bytes_eqb m CONNECT) u) as [[h pt] pa].
+  eexists _, _. split; [reflexivity|]. cbn [set_line host port path]. auto.
+Qed.
+
+(* ------------------------------------------------------------------ the leniency that mis-routes *)
+(* an accepted target whose derived host contains a byte the target does not contain is outside the grammar *)
+Lemma accepted_not_in_grammar c raw h p pa x :
+  derive c raw = Ok (Some h, p, pa) -> In x h -> ~ In x raw ->
+  forall t, wf_target t = true -> render_target t <> raw.
+Proof.
+  intros Hd Hx Hn t Hwf E. subst raw. rewrite (derive_roundtrip c t Hwf) in Hd.
+  apply Hn. destruct t as [q|ui hh pt q|hh q]; cbn [expected render_target] in *; [discriminate| |];
+    inversion Hd; subst; rewrite !in_app_iff; auto.
+Qed.
+
+Definition W_UNBRACKETED : bytes := bytes_of_string "http://::1/x".
+Definition W_UNBRACKETED_CONNECT : bytes := bytes_of_string ":::443".
+
+Lemma no_lbracket_in l : forallb (fun x => negb (x =? LBRACKET)) l = true -> ~ In LBRACKET l.
+Proof. intros H. apply (forallb_notin _ _ _ H). reflexivity. Qed.
+
+Lemma unbracketed_ipv6_misroute ipv :
+  (forall t, wf_target t = true -> render_target t <> W_UNBRACKETED) /\
+  ref_hostport_text W_UNBRACKETED = Some (bytes_of_string "::1") /\
+  lenient_ipv6_shape (bytes_of_string "::1") = true /\
+  derive false W_UNBRACKETED = Ok (Some (bytes_of_string "[::]"), Some 1%Z, Some (bytes_of_string "/x")) /\
+  route ipv false W_UNBRACKETED = Ok (dispatch ipv (bytes_of_string "::") 1%Z).
+Proof.
+  assert (Hd : derive false W_UNBRACKETED = Ok (Some (bytes_of_string "[::]"), Some 1%Z, Some (bytes_of_string "/x")))
+    by (vm_compute; reflexivity).
+  split; [|split; [|split; [|split]]].
+  - apply (accepted_not_in_grammar false _ _ _ _ LBRACKET Hd); [now left|].
+    apply no_lbracket_in. vm_compute. reflexivity.
+  - vm_compute. reflexivity.
+  - vm_compute. reflexivity.
+  - exact Hd.
+  - unfold route. rewrite Hd. cbn [bind].
+    rewrite connect_upstream_ok; [reflexivity|discriminate|unfold port_in_range; lia|vm_compute; reflexivity].
+Qed.
+
+Lemma unbracketed_ipv6_misroute_connect ipv :
+  (forall t, wf_target t = true -> render_target t <> W_UNBRACKETED_CONNECT) /\
+  route ipv true W_UNBRACKETED_CONNECT = Ok (dispatch ipv (bytes_of_string "::") 443%Z).
+Proof.
+  assert (Hd : derive true W_UNBRACKETED_CONNECT = Ok (Some (bytes_of_string "[::]"), Some 443%Z, None))
+    by (vm_compute; reflexivity).
+  split.
+  - apply (accepted_not_in_grammar true _ _ _ _ LBRACKET Hd); [now left|].
+    apply no_lbracket_in. vm_compute. reflexivity.
+  - unfold route. rewrite Hd. cbn [bind].
+    rewrite connect_upstream_ok; [reflexivity|discriminate|unfold port_in_range; lia|vm_compute; reflexivity].
+Qed.
+
+(* ------------------------------------------------------------------ numeric ports 0..65535 as the grammar's digit text *)
+Fixpoint sweep (fuel : nat) (n : N) (f : N -> bool) : bool :=
+  match fuel with O => true | S k => f n && sweep k (n + 1) f end.
+
+Lemma sweep_forall f fuel : forall s, sweep fuel s f = true -> forall n, s <= n < s + N.of_nat fuel -> f n = true.
+Proof.
+  induction fuel as [|k IH]; intros s H n Hn; [lia|].
+  cbn [sweep] in H. apply andb_true_iff in H as [H0 H1].
+  destruct (N.eq_dec n s) as [->|Ne]; [exact H0|].
+  apply (IH (s + 1) H1). lia.
+Qed.
+
+Definition port_ok (n : N) : bool := wf_port (dec_of_N n) && (digits_val (dec_of_N n) =? n).
+
+Lemma port_sweep : sweep (N.to_nat 65536) 0 port_ok = true.
+Proof. vm_compute. reflexivity. Qed.
+
+(* str(n).encode() for a port number is a well-formed port text with value n (finite domain: the bound is in the statement) *)
+Lemma dec_port n : n < 65536 -> wf_port (dec_of_N n) = true /\ port_value (dec_of_N n) = Z.of_N n.
+Proof.
+  intros Hn. pose proof (sweep_forall port_ok _ 0 port_sweep n) as H.
+  rewrite N2Nat.id in H. specialize (H ltac:(lia)). unfold port_ok in H.
+  apply andb_true_iff in H as [H1 H2]. apply N.eqb_eq in H2. split; [exact H1|].
+  unfold port_value. now rewrite H2.
+Qed.
+
+(* ------------------------------------------------------------------ statements as used in Props/C14.v *)
+Lemma connect_addr : forall ipv is_connect t,
+  wf_target t = true ->
+  match expected_addr is_connect t with
+  | Some (h, p) =>
+      (port_in_range p -> route ipv is_connect (render_target t) = Ok (dispatch ipv h p) /\
+                          call_addr (dispatch ipv h p) = (h, p)) /\
+      (~ port_in_range p -> exists k, route ipv is_connect (render_target t) = Err (HttpProtocolException k))
+  | None => route ipv is_connect (render_target t) = Err (HttpProtocolException 3)
+  end.
+Proof.
+  intros ipv c t Hwf. destruct (expected_addr c t) as [[h p]|] eqn:E.
+  - destruct (route_wf ipv c t h p Hwf E) as [H1 H2]. split; [|exact H2].
+    intros Hp. split; [now apply H1|apply dispatch_addr].
+  - now apply route_origin.
+Qed.
+
+Lemma lenient_refuted : forall ipv,
+  exists raw call,
+    (forall t, wf_target t = true -> render_target t <> raw) /\
+    route ipv false raw = Ok call /\
+    call_addr call = (bytes_of_string "::", 1%Z) /\
+    ref_hostport_text raw = Some (bytes_of_string "::1") /\
+    lenient_ipv6_shape (bytes_of_string "::1") = true.
+Proof.
+  intros ipv. destruct (unbracketed_ipv6_misroute ipv) as (H1 & H2 & H3 & _ & H5).
+  exists W_UNBRACKETED, (dispatch ipv (bytes_of_string "::") 1%Z).
+  repeat split; try assumption. apply dispatch_addr.
+Qed.
+
+Lemma lenient_connect_refuted : forall ipv,
+  exists raw call,
+    (forall t, wf_target t = true -> render_target t <> raw) /\
+    route ipv true raw = Ok call /\ call_addr call = (bytes_of_string "::", 443%Z).
+Proof.
+  intros ipv. destruct (unbracketed_ipv6_misroute_connect ipv) as (H1 & H2).
+  exists W_UNBRACKETED_CONNECT, (dispatch ipv (bytes_of_string "::") 443%Z).
+  repeat split; try assumption. apply dispatch_addr.
+Qed.
+
+(* the guard of [no_misroute] is needed also for bracketed texts with exactly two colons: the host keeps a
+   trailing colon (finding C14-two-colon-trailing-colon) *)
+Definition W_TWO_COLON : bytes := bytes_of_string "http://[a:b]:80/".
+Lemma two_colon_refuted : forall ipv,
+  exists raw hp h p pa,
+    ref_hostport_text raw = Some hp /\ lenient_ipv6_shape hp = true /\
+    derive false raw = Ok (Some h, Some p, pa) /\
+    ref_hostport hp = (bytes_of_string "[a:b]", Some 80%Z) /\ h = bytes_of_string "[a:b]:" /\
+    route ipv false raw = Ok (dispatch ipv h p).
+Proof.
+  intros ipv.
+  exists W_TWO_COLON, (bytes_of_string "[a:b]:80"), (bytes_of_string "[a:b]:"), 80%Z, (Some [SLASH]).
+  assert (Hd : derive false W_TWO_COLON = Ok (Some (bytes_of_string "[a:b]:"), Some 80%Z, Some [SLASH]))
+    by (vm_compute; reflexivity).
+  split; [vm_compute; reflexivity|]. split; [vm_compute; reflexivity|]. split; [exact Hd|].
+  split; [vm_compute; reflexivity|]. split; [reflexivity|].
+  unfold route. rewrite Hd. cbn [bind].
+  rewrite connect_upstream_ok; [reflexivity|discriminate|unfold port_in_range; lia|vm_compute; reflexivity].
+Qed.
